@@ -148,6 +148,7 @@ fn run(_variant: usize) -> CaseOut {
     sim::spawn_local("body-consumer", async move {
         let mut stream = stream;
         let mut k = 0u32;
+        let mut k2 = 0u32;
         while let Some(b) = stream.next().await {
             sim::log_order(format!("mp chunk {} bytes", b.len()));
             // a part is half written when the chunk just received is a part header
@@ -155,6 +156,10 @@ fn run(_variant: usize) -> CaseOut {
                 sim::count("probe:input-arrived-while-part-half-written");
             }
             c2.borrow_mut().0.push(b.to_vec());
+            k2 += 1;
+            if k2 % 64 == 0 {
+                sim::yield_now().await;
+            }
             if lag > 0 {
                 k += 1;
                 sim::sleep(1 + ((k as u64 * 7 + lag) % (lag + 1))).await;
